@@ -299,6 +299,10 @@ def run(ctx):
     check_vasp_mode_switch(ctx)
     ctx.rule("R6", "Molden: the unit keyword of the [Atoms] line selects the coordinate factor (evaluated on every spelling)", "`[Atoms] (Angs)` coordinates are taken as bohr (or AU coordinates as angstrom): the geometry is off by 0.529 and the orbital check rejects a valid file")
     check_molden_atoms_unit(ctx, "R6")
+    ctx.rule("R7", "VASP: cell and Cartesian positions carry scaling factor x angstrom, direct positions the cell's unit (header reader evaluated with a marker factor)", "the universal scaling factor or the angstrom factor dropped from one of the two: cell and positions in different units")
+    from .c03 import check_vasp_header
+
+    check_vasp_header(ctx, "R7")
     ctx.rule("R5", "cell vectors and grid step vectors are scaled along the right axis", "each cell vector is multiplied by the point count of another axis: the loaded cell differs from the same system in another format")
     from .indexmaps import check_index_maps
 
